@@ -276,10 +276,13 @@ func (r *DeviceAuthorizationState) GetAMR() []string {
 }
 
 func (r *DeviceAuthorizationState) GetAudience() []string {
-	if !slices.Contains(r.Audience, r.ClientID) {
-		r.Audience = append(r.Audience, r.ClientID)
+	if slices.Contains(r.Audience, r.ClientID) {
+		return r.Audience
 	}
-	return r.Audience
+	// a getter must not write to the state the storage handed out (it may be shared between requests)
+	audience := make([]string, len(r.Audience), len(r.Audience)+1)
+	copy(audience, r.Audience)
+	return append(audience, r.ClientID)
 }
 
 func (r *DeviceAuthorizationState) GetAuthTime() time.Time {
